@@ -1,8 +1,9 @@
 (* C03 -- strict-mode tokenization (partial).  Only statements, `exact` proofs and Print Assumptions.
    The tag tables (LolGen.TagTables) are regenerated from the source on every run; LolSpec.Whatwg is written from the
    WHATWG standard. *)
-From LolModel Require Import Base TreeBuilder.
+From LolModel Require Import Base TreeBuilder Machine.
 From LolSpec Require Import Whatwg.
+From LolProofs Require Import StrictErase.
 From LolProofs Require Import Strict.
 From Coq Require Import List String Bool NArith.
 Import ListNotations.
@@ -55,7 +56,25 @@ Example C03_guard_example :
   guard_track_start GDefault (h "title") = Some GDefault /\ guard_track_start GInOrAfterFrameset (h "noframes") = Some GInOrAfterFrameset.
 Proof. vm_compute. repeat split. Qed.
 
+(* Strict mode only ever ADDS the refusal: for EVERY controller (every set of handlers), configuration, input and chunking, a run
+   in which no call reports ParsingAmbiguity -- in particular every successful strict run -- is, call for call, the non-strict run:
+   same results, same sink calls, same controller (handler) state, same parser state (urw only erases the guard and the flag). *)
+Theorem C03_strict_run_without_ambiguity_is_the_non_strict_run :
+  forall (C : Type) (ctl : controller C) cfg c0 ops,
+  Forall not_amb (snd (api_run ctl (new_rewriter ctl cfg c0) ops)) ->
+  api_run ctl (new_rewriter ctl (unstrict_cfg cfg) c0) ops =
+  (urw (fst (api_run ctl (new_rewriter ctl cfg c0) ops)), snd (api_run ctl (new_rewriter ctl cfg c0) ops)).
+Proof. exact (@strict_run_without_ambiguity_is_the_non_strict_run). Qed.
+Theorem C03_successful_strict_run_equals_the_non_strict_run :
+  forall (C : Type) (ctl : controller C) cfg c0 ops r res r' res',
+  api_run ctl (new_rewriter ctl cfg c0) ops = (r, res) -> Forall (fun x => x = ROk) res ->
+  api_run ctl (new_rewriter ctl (unstrict_cfg cfg) c0) ops = (r', res') ->
+  res' = res /\ rw_sink r' = rw_sink r /\ d_ctl (c_disp (s_ctx (rw_stream r'))) = d_ctl (c_disp (s_ctx (rw_stream r))).
+Proof. exact (@strict_success_same_sink_and_controller). Qed.
+
 Print Assumptions C03_tables_are_the_whatwg_lists.
 Print Assumptions C03_strict_fails_only_when_ambiguous.
 Print Assumptions C03_ambiguity_is_refused_in_select.
 Print Assumptions C03_strict_and_non_strict_feedback_agree_on_start_tags.
+Print Assumptions C03_strict_run_without_ambiguity_is_the_non_strict_run.
+Print Assumptions C03_successful_strict_run_equals_the_non_strict_run.
